@@ -22,7 +22,7 @@ PROPS = {
             {"suite": "trace", "quick": (2000, "planted,linear,prio,contra,collapsed,pinned,large"), "thorough": (18000, "planted,linear,prio,contra,caps,conflict,collapsed,pinned,large")},
         ],
         "oracles": [
-            {"bin": "oracle_c12", "quick": ("{seed}", "4000"), "thorough": ("{seed}", "20000")},
+            {"bin": "oracle_c12", "min_stats": {"systems": 0.5, "request_permutations": 2.36, "renumberings": 0.948, "outcomes_compared": 3.32}, "quick": ("{seed}", "4000"), "thorough": ("{seed}", "20000")},
         ],
         "partial": ["solve_equivariant is proved per priority level over the reals (solveInner_perm, solveInner_renumber, with newtonStep/newtonLoop versions): reordering the requests gives the same values, iterations, solved priority and under-constrained set, the same unsatisfied requests and warnings up to order (equal after sorting: unsatisfied_sorted_eq); renumbering the variables gives the reordered values and otherwise the identical outcome; the solver hypotheses (RowPermSolve, ColPermSolve) are shown to hold for exact total solvers (rowPermSolve_of_exact, colPermSolve_of_exact via step_row_perm / step_col_perm / step_unique). Not invariant, and stated so (solveInner_perm_invalid): which request a MissingGuess error names when several requests have missing guesses (first in list order). At the public entry point (solveWithPriority_perm, solveWithPriority_renumber; solve without analysis): request ids are pure labels (solveInner_relabel_cases), enumerate of a permuted list is a permutation of the relabelled entries, the levels are equal, so both runs take the same decisions level by level: same values, iterations and solved priority, unsatisfied requests and warnings mapped through the position bijection (up to order), or the same failure",
                     "with analysis (Real/EquivarianceDof.lean): the under-constrained list is a function of the kernel of the analysed Jacobian only (dof_same_kernel, spectrum gap needed, participation gap not), hence equal under request permutation (dof_row_perm, solveInner_perm_withAnalysis, solveWithPriority_perm_withAnalysis) and mapped through the renumbering under variable renumbering (dof_col_perm, solveInner_renumber_withAnalysis, solveWithPriority_renumber_withAnalysis with the relation RenumEqDof; the older RenumEq demands equal lists and is only right without analysis); the SVD contract is assumed for the two Jacobians actually analysed (SvdGood), not for all matrices",
@@ -37,7 +37,7 @@ PROPS = {
             {"suite": "trace", "quick": (2000, "planted,prio,contra,malformed,conflict,collapsed,pinned,large"), "thorough": (18000, "planted,prio,contra,malformed,conflict,linear,caps,collapsed,pinned,large")},
         ],
         "oracles": [
-            {"bin": "oracle_c15", "quick": ("{seed}", "10000"), "thorough": ("{seed}", "60000")},
+            {"bin": "oracle_c15", "min_stats": {"systems": 0.5, "angle_requests": 0.734, "special_angles": 0.0699, "lints_seen": 0.16, "degeneracy_audits": 0.397, "healthy_request_audits": 2.02, "collapsed_guess_systems": 0.165, "clean_starts": 0.0539}, "quick": ("{seed}", "10000"), "thorough": ("{seed}", "60000")},
         ],
         "partial": ["'always gets a warning' is proved for the request subset whose outcome / failure is returned (lint_survives, lint_survives_error, lint_single_level); for a special-angle request at a level that was never attempted or was abandoned the code emits nothing - the statement is false of the code there (known finding F12; machine-checked negation witness lint_lost_below_solved_priority, general form no_warning_above_solved_priority)",
                     "'none for solves that start near a non-degenerate solution' is a claim about the iterates of the f64 loop: searched by the oracle, not proved; what is proved is that the Degenerate notices of a run are EXACTLY the notices of the flags raised at the configurations it visited, in order, without de-duplication (newtonLoop_warnings_eq, warning_indices_visited, degenerate_reported; Proofs/Visited.lean, Properties/C07b.lean), what the flag means geometrically per kind (degenerate_sound_*), and that a collapse at the guess is always reported for the guarded kinds (degenerate_complete_at_guess, per level: a collapsed request above the solved priority gets no notice, same shape as F12); the values returned after a step-size stop are never evaluated for degeneracy",
@@ -52,7 +52,7 @@ PROPS = {
             {"suite": "text", "quick": (1200, 600), "thorough": (10000, 4000)},
         ],
         "oracles": [
-            {"bin": "oracle_c16.py", "python": True, "quick": ("{seed}", "300"), "thorough": ("{seed}", "3000"), "timeout": 7200},
+            {"bin": "oracle_c16.py", "min_stats": {"systems": 0.55, "runs": 2.2, "exit0": 0.947, "exit1": 1.15, "unsatisfied_lines_compared": 0.733, "warning_lines_compared": 20.9, "by_status.ok": 0.237, "by_status.serr": 0.152}, "python": True, "quick": ("{seed}", "300"), "thorough": ("{seed}", "3000"), "timeout": 7200},
         ],
         "partial": ["the theorems are about the hand-written model of main.rs (Ezpz/Model/Cli.lean, CliMain.lean); the tie to the real program is the comparison of exit status and standard output of the release binary built from /repo with the model's rendering, by path and by stdin, on every generated text",
                     "cli_never_panics assumes the LU oracle does not panic (LinSolveTotal, as in C06); panics inside faer, clap argument handling, --image-path (visualize::save_png) and the two wall-clock performance lines are outside the model",
@@ -67,7 +67,7 @@ PROPS = {
             {"suite": "trace", "quick": (2000, "planted,linear,prio,contra,pinned,collapsed,large"), "thorough": (18000, "planted,linear,prio,contra,caps,conflict,pinned,collapsed,large")},
         ],
         "oracles": [
-            {"bin": "oracle_c17", "quick": ("{seed}", "1500", "12"), "thorough": ("{seed}", "3000", "200")},
+            {"bin": "oracle_c17", "min_stats": {"systems": 0.5, "groups": 2.83}, "quick": ("{seed}", "1500", "12"), "thorough": ("{seed}", "3000", "200")},
         ],
         "partial": ["iterates_restrict is proved (Union.lean: newtonStep_union, newtonRun_union, newtonLoop_union_prefix, newtonLoop_union_converged, residual_test_union_iff, union_values_split; blockSolve_of_exact shows exact solvers satisfy the block hypothesis): while both groups keep iterating the union's values are the concatenation of the groups' values, the union returns at the residual test iff both groups do, and in every case the new values of a group are computed from that group's data only - only the decision when to stop is global (step_test_is_global: the relative step threshold uses the largest coordinate of the whole union). Also proved: requests of groups sharing no variables give a block-diagonal Jacobian and a concatenated residual at every configuration (disjoint_block_structure, disjoint_no_coupling), a group's rows depend only on its own variables (group1_independent, group2_independent), the damped step of the union is exactly the pair of the groups' steps (step_of_blocks), the union's residual test passes iff every group's does and its step norm is the largest group norm (residual_test_of_union, step_norm_of_union), an Ok result has only finite values (C06.ok_implies_finite, which closes the NaN cross-talk path); equality of returned values is therefore exact for equal iteration counts; when one group converges earlier the union keeps stepping it (global stopping rules) and the difference is a convergence quantity, left to the oracle (<= 1e-5*scale)",
                     "scope of the theorems: any number k >= 1 of groups (Real/UnionMany.lean: solveWithPriority_unionMany_converged, by induction with the two-group theorem; newton_union_byResidual supplies the ghost flag for the induction), in any interleaving of the requests and any numbering of the variables (solveWithPriority_unionMany_any_order(_exact), by composition with the C12 permutation / renumbering theorems: values reordered by the renumbering, same iteration count, unsatisfied list mapped through the position permutation up to order); remaining restrictions, stated in the hypotheses: one priority level, no freedom analysis, every group returns at the residual test, all groups report the same iteration count, exact solvers with one common positive damping - the cases outside (different round counts, step-size stops) are the convergence quantities left to the oracle",
@@ -81,7 +81,7 @@ PROPS = {
             {"suite": "trace", "quick": (2500, "planted,linear,prio,contra,collapsed,pinned,large"), "thorough": (24000, "planted,linear,prio,contra,caps,conflict,disparity,collapsed,pinned,large")},
         ],
         "oracles": [
-            {"bin": "oracle_c05.py", "python": True, "quick": ("{seed}", "4000"), "thorough": ("{seed}", "20000")},
+            {"bin": "oracle_c05.py", "min_stats": {"systems": 0.405, "checked": 0.388, "no_constraints": 0.0631, "fully_constrained": 0.0398, "with_free_variables": 0.345, "fell_back_to_a_previous_level": 0.0239}, "python": True, "quick": ("{seed}", "4000"), "thorough": ("{seed}", "20000")},
         ],
         "partial": ["dof_spec is about exact real arithmetic under the SvdSpec contract and the two gap hypotheses (the property's own 'well-separated cases only'); that faer's f64 SVD meets the contract is checked as a certificate (V orthogonal, VtJtJV = diag sigma^2, sigma sorted) on every recorded trace, and the float thresholds on borderline spectra are outside the statement",
                     "tied to the solver's outcome by Real/DofEntry.lean: underconstrained_is_nullspace_participation - for a successful solveWithPriority with analysis the reported list is exactly {j | some null vector of the analysed Jacobian has a non-zero j-th component}, under the SVD contract for the matrix actually analysed; the analysed Jacobian (LastRound) is the assembled Jacobian of the requests of priority <= the solved priority at the point the last executed round STARTED from: the returned point after a residual-test stop, the point one step earlier after a step-size stop (lastJac_is_before_last_step is a concrete run where the two Jacobians differ) - the difference is below the step tolerance"],
@@ -96,7 +96,7 @@ PROPS = {
             {"suite": "trace", "quick": (2000, "planted,linear,prio,collapsed,pinned,large"), "thorough": (18000, "planted,linear,prio,caps,disparity,collapsed,pinned,large")},
         ],
         "oracles": [
-            {"bin": "oracle_c02", "quick": ("{seed}", "15000"), "thorough": ("{seed}", "200000")},
+            {"bin": "oracle_c02", "min_stats": {"checked": 0.35, "with_short_feature": 0.0487, "fully_pinned": 0.1, "full_rank": 0.04}, "quick": ("{seed}", "15000"), "thorough": ("{seed}", "200000")},
         ],
         "partial": ["convergence of the f64 iteration (success, iteration count <= 8, landing within 1.5x) is NOT proved: the theorems give the loop's anatomy (every round is residual test -> damped step of the Jacobian at the current point -> step test), existence/uniqueness/descent of the exact step, monotone approach on consistent linear systems, and the abstract contraction argument with the constant 1.5; that a given planted system satisfies the contraction hypothesis is left to the oracle on the real code; the exact-arithmetic statement is now instantiated for the MODEL's own assembled residual and Jacobian (Real/FDerivEntry.lean): for request lists made of 15 kinds - fixed, scalarEqual, horizontal, vertical, horizontal/verticalDistance, pointsCoincident, midpoint, circleRadius, parallel, perpendicular, isArc (no hypothesis) and distance, linesEqualLength, arcRadius (points strictly farther apart than EPS at x*) - the assembled residual rOf is Frechet differentiable at x* with derivative the model's Jacobian JOf, JOf is continuous there (hasFDerivAt_rOf_regular), one continuing round of the model's newtonStep with an exact solver IS the map x -> x - (J^T J + lambda I)^-1 J^T r(x) (newtonStep_eq_gnMap, all kinds), and hence for a zero x* with sigma_min(J)^2 >= c > lambda the rounds the model's loop executes from within rho of x* halve the error and stay within 1.5|x0 - x*| of the guess (model_newtonRun_C02; two concrete non-linear systems meet all hypotheses with lambda = 1e-9, c = 1/4); the other 8 kinds (general angle, symmetric, point-line distances, tangencies, point-on-arc, arc length / angle) are not covered by the Frechet bridge, and nothing here is about f64",
                     "gauss_newton_local_C02 (LocalContraction.lean) proves the whole chain for the exact iteration: error map differentiable at x* with Jacobian J, sigma_min(J)^2 >= c > lambda > 0, iteration operator continuous at x* => a ball around x* on which the error halves every round and no iterate is farther from the guess than 1.5x; continuity of the iteration operator is derived from continuity of the Jacobian at x* (gauss_newton_local_C02_of_continuous_jacobian); rank-deficient ('not pinned down') systems are outside it: the defect operator is the identity on ker J (damped_defect_on_kernel), which is the regime of known finding F15",
@@ -111,7 +111,7 @@ PROPS = {
             {"suite": "trace", "quick": (2000, "linear,planted,contra,conflict,collapsed,pinned,large"), "thorough": (18000, "linear,planted,contra,conflict,prio,caps,collapsed,pinned,large")},
         ],
         "oracles": [
-            {"bin": "oracle_c04.py", "python": True, "quick": ("{seed}", "2000"), "thorough": ("{seed}", "8000")},
+            {"bin": "oracle_c04.py", "min_stats": {"systems": 0.5, "consistent": 0.129, "inconsistent": 0.335, "ok": 0.47, "unmentioned_variables_checked": 2.26}, "python": True, "quick": ("{seed}", "2000"), "thorough": ("{seed}", "8000")},
         ],
         "partial": ["the 1e-4*scale closeness of the f64 result to the exact minimum-norm least-squares point (effect of lambda = 1e-9, of stopping early, of rounding) is not proved: the theorems give the exact algebra (one step is the Tikhonov minimiser; displacement stays in range(A^T); a stationary point with displacement in range(A^T) is the unique nearest least-squares point; the last step d certifies stationarity up to lambda*|d|); in exact arithmetic a consistent system converges geometrically with factor lambda/(c+lambda) per round to the solution nearest the guess, c a lower bound of |Az|^2/|z|^2 on range(A^T), which exists and is positive for every matrix (gap_exists), and the nearest solution exists (nearest_solution_exists): linear_consistent_converges_from_guess has no hypothesis beyond consistency; that the f64 iteration gets there within 35 rounds and stops is left to the exact-rational oracle on the real code",
                     "unmentioned variables: untouched_var_fixed' (Proofs/Untouched2.lean, every scalar type) says: no request mentions j (=> no triplet in column j, jacobianAll_no_column) and the solver returns a neutral element of + in slot j for Jacobians without a column j (ZeroStepOn) => j is returned at its guess; over the reals every exact solver satisfies ZeroStepOn (zeroStepOn_of_exact via untouched_var_step_zero), giving unmentioned_variable_returned_at_guess with no hypothesis on the solver beyond exactness; that faer's LU returns exactly 0.0 there is checked on every recorded trace (zero-column certificate). For f64 'exactly at its guess' means equal as numbers: a guess of -0.0 comes back as +0.0 (-0.0 + 0.0)",
@@ -125,7 +125,7 @@ PROPS = {
             {"suite": "trace", "quick": (2000, "prio,contra,planted,linear,caps,malformed,conflict,disparity,resolve,large"), "thorough": (18000, "prio,contra,planted,linear,caps,malformed,conflict,disparity,resolve,large")},
         ],
         "oracles": [
-            {"bin": "oracle_c03", "quick": ("{seed}", "7500", "0"), "thorough": ("{seed}", "20000", "1")},
+            {"bin": "oracle_c03", "min_stats": {"exhaustive_lists": 2.0, "systems": 0.5, "level_ok": 0.525, "level_unsatisfied": 0.26, "level_error": 0.0931}, "quick": ("{seed}", "7500", "1"), "thorough": ("{seed}", "20000", "1")},
         ],
         "partial": [],
         "partial": ["full for every scalar type and every per-level solver: priority_spec / result_is_subset_solve, and at the public observation point result_is_filtered_solve(_fields) / error_is_filtered_solve (Proofs/PriorityEntry.lean): the prioritised solve of the whole list returns exactly what the public solve of the filtered list reqs.filter (priority <= P) returns, positions mapped through the strictly increasing position map pos, with the same LU / SVD oracles and no re-indexing (level_index_coincide); nothing about this property is left to the oracle except the f64 numerics inside one level"],
@@ -137,7 +137,7 @@ PROPS = {
             {"suite": "trace", "quick": (2000, "caps,prio,planted,contra,collapsed,pinned,large"), "thorough": (18000, "caps,prio,planted,contra,linear,malformed,collapsed,pinned,large")},
         ],
         "oracles": [
-            {"bin": "oracle_c14", "quick": ("{seed}", "1500"), "thorough": ("{seed}", "6000")},
+            {"bin": "oracle_c14", "min_stats": {"systems": 0.5, "runs": 7.0, "ok_runs": 5.38, "did_not_converge_runs": 1.6, "multi_level_systems": 0.167, "tolerance_checks": 0.343, "round_count_runs": 3.5}, "quick": ("{seed}", "1500"), "thorough": ("{seed}", "6000")},
         ],
         "partial": ["single priority level: solve_cap_monotone_single_level (Proofs/Caps.lean) - unconditional at the public entry point; error direction for ANY request list: solve_cap_monotone_err (DidNotConverge under cap c' => DidNotConverge with the same sizes under every c <= c'); several levels, success direction: solve_cap_monotone_partial needs the hypothesis that no level call runs out of iterations under the smaller cap - without it the statement is false of model and code (known finding F11; machine-checked witnesses cap_not_monotone_multi_level over the reals and cap_not_monotone_multi_level_float evaluated at f64)",
                     "the tolerance clause is proved over the reals at the public outcome (Real/ToleranceEntry.lean: solve_within_tolerance - every residual component of every attempted request at the returned values is <= the configured tolerance when the returned level stopped on the residual test; solve_within_tolerance_of_silent replaces the ghost flag by an observable condition, e.g. step tolerance 0 and a solver that never answers a non-converged residual with the zero step); that the f64 iteration reaches the residual test for a given tighter tolerance is a convergence claim, checked by the oracle on the real code only"],
@@ -151,7 +151,7 @@ PROPS = {
             {"suite": "trace", "quick": (1500, "planted,contra,prio,linear,conflict,disparity,collapsed,pinned,resolve,large"), "thorough": (15000, "planted,contra,prio,linear,caps,malformed,conflict,disparity,collapsed,pinned,resolve,large")},
         ],
         "oracles": [
-            {"bin": "oracle_c01", "quick": ("{seed}", "3000"), "thorough": ("{seed}", "20000")},
+            {"bin": "oracle_c01", "min_stats": {"ok_results": 0.994, "verdicts_checked": 6.82, "listed_unsatisfied": 0.463, "angle_reexpressions": 0.194, "nan_target_requests": 0.0213, "undefined_errors_checked": 0.038}, "quick": ("{seed}", "3000"), "thorough": ("{seed}", "20000")},
         ],
         "partial": ["point_arc_verdict: for PointArcCoincident only 'on the circle' is guaranteed by a satisfied verdict; the arc's sweep is not checked within 0.05 of the circle (known finding F14)",
                     "the geometric meaning of each error measure is proved over the reals (measures_<kind>, satisfied_<kind>, zero_iff_<kind> for all 23 kinds, in coordinates, against a vocabulary written independently of the kernels); for the f64 code it is checked by the independent geometric oracle; where a kind's residual guard is active the measure is 0 and the verdict is 'satisfied' whatever the geometry (guarded_* / satisfied_of_guard_* theorems): those configurations are exempt in the oracle as degenerate",
@@ -165,7 +165,7 @@ PROPS = {
             {"suite": "trace", "quick": (2000, "malformed,planted,contra,caps,collapsed,large"), "thorough": (24000, "malformed,planted,contra,caps,prio,linear,collapsed,large")},
         ],
         "oracles": [
-            {"bin": "oracle_c06", "quick": ("{seed}", "15000"), "thorough": ("{seed}", "100000")},
+            {"bin": "oracle_c06", "min_stats": {"systems": 1.0, "ok": 0.503, "err": 0.491, "ok_with_finite_input": 0.493, "round_count_runs": 0.164}, "quick": ("{seed}", "15000"), "thorough": ("{seed}", "100000")},
         ],
         "partial": ["the Float instance's hypot is sqrt(x*x + y*y), not libm's overflow-safe hypot: for coordinates around 1e154 and beyond the model's residual is inf where the code's is finite, so such runs are not compared numerically by corr-trace (they are skipped and counted); C06's theorems hold for every scalar type and are unaffected; the real code's behaviour on huge inputs is covered by the totality oracle",
                     "iterations_bounded is about the reported count of successful runs; that no level runs more Newton rounds than the cap is checked on the real code from the trace (oracle_c06 / oracle_c14 'rounds-exceed-cap') and, for the model, follows from iteratesFrom_length_le",
@@ -179,7 +179,7 @@ PROPS = {
             {"suite": "trace", "quick": (2000, "prio,contra,planted,malformed,conflict,collapsed,pinned,resolve,large"), "thorough": (18000, "prio,contra,planted,malformed,linear,caps,conflict,collapsed,pinned,resolve,large")},
         ],
         "oracles": [
-            {"bin": "oracle_c07", "quick": ("{seed}", "5000"), "thorough": ("{seed}", "30000")},
+            {"bin": "oracle_c07", "min_stats": {"systems": 0.5, "ok": 0.43, "err": 0.0676, "warnings_checked": 0.0327, "degenerate_warnings": 0.0274, "fallback_outcomes": 0.248, "permuted_guess_lists": 0.167, "typed_lookup_rounds": 1.72}, "quick": ("{seed}", "5000"), "thorough": ("{seed}", "30000")},
         ],
         "partial": ["values_by_id_partial: proved under 'guess ids are 0..n in order'; false of the code otherwise (known finding F5, negation witness values_by_id_fails_when_permuted)",
                     "warnings: warning_indices_visited / failure_warning_indices (Properties/C07b.lean) - every warning of an Ok or Failure outcome names, by caller position, an attempted request, and is either a lint of a LinesAtAngle(Other) request or a Degenerate notice whose flag was raised at a configuration this run visited (DegenerateAtVisited over the iterates of the returned level, Proofs/Visited.lean); the older warning_indices / newtonLoop_warnings say only 'a request of a kind that can raise the flag' and are kept as the weak form; failure_sizes_solve' names the level (the numerically smallest requested priority)",
@@ -192,7 +192,7 @@ PROPS = {
             {"suite": "trace", "quick": (1500, "planted,prio,contra,linear,collapsed,pinned,resolve,large"), "thorough": (15000, "planted,prio,contra,linear,caps,malformed,collapsed,pinned,resolve,large")},
         ],
         "oracles": [
-            {"bin": "oracle_c10", "quick": ("{seed}", "4000"), "thorough": ("{seed}", "20000"), "digest_twice": True, "second_args": ["rev"]},
+            {"bin": "oracle_c10", "min_stats": {"systems": 0.5, "both_ok": 0.479, "repeated_calls": 1.0, "texts": 0.125, "text_runs_under_other_configs": 0.625, "of_which_fail": 0.495, "fresh_thread_solves": 0.781}, "quick": ("{seed}", "4000"), "thorough": ("{seed}", "20000"), "digest_twice": True, "second_args": ["rev"]},
         ],
         "partial": ["analysis_only_adds_failure_partial: proved under the hypothesis hok that plain and analysed level runs agree at EVERY (priority value, call index) pair - stronger than 'the analysis succeeds at every attempted level'; analysis_only_adds_failure_levels needs the agreement only for the j-th level of the list at call index j (levels after the first unsatisfied one are still included, so an analysis failure at a level that is never attempted falsifies the hypothesis although the conclusion holds); without any such hypothesis the statement is false of the code (known finding F10)",
                     "'the text front-end's solve methods agree': the four methods (solve, solve_with_config, solve_with_config_analysis, solve_no_metadata) are not modelled separately - the model has one text pipeline; their agreement with each other and with the library is checked on the real code only (oracle_c10: default and five non-default configurations, most of which make the solve fail)",
@@ -206,7 +206,7 @@ PROPS = {
             {"suite": "trace", "quick": (1500, "planted,linear,prio,resolve,large"), "thorough": (15000, "planted,linear,prio,caps,contra,resolve,large")},
         ],
         "oracles": [
-            {"bin": "oracle_c11", "quick": ("{seed}", "3000"), "thorough": ("{seed}", "20000")},
+            {"bin": "oracle_c11", "min_stats": {"systems": 0.5, "exact_starts": 0.333, "near_tolerance_starts": 0.14, "tolerance_boundary_starts": 0.464, "chains": 0.405, "chain_links": 1.21}, "quick": ("{seed}", "3000"), "thorough": ("{seed}", "20000")},
         ],
         "partial": ["results that stopped on the step-size test or fell back to a higher level are not 'converged' in the property's sense; the theorems' hypotheses say so (ghost flag byResidual / ConvergedAt / htop) and the file has counterexamples for both (a lower-level fall-back result is not a fixed point of the full list)",
                     "converged_guess_untouched (repaired: its hypothesis used to be unsatisfiable unless some request had priority 0) derives success and gives values unchanged, 0 iterations, unsatisfied = [] and the top priority, every scalar type, every LU oracle; resolve_untouched lifts it to a re-solve from a previous result at the public entry point; the clauses about sub-lists and about adding already-satisfied constraints (ConvergedAt_subset, ConvergedAt_append, converged_guess_untouched_append, resolve_with_extra_untouched) need the order laws MaxLaws (le_trans, fmax is the least upper bound): true over the reals (Real/Resolve.lean), FALSE for f64 when a residual is NaN because fmax skips NaN (counterexample in Properties/C11.lean) - for finite residuals the f64 behaviour is covered by the oracle's chains"],
@@ -243,7 +243,7 @@ PROPS = {
             {"suite": "kernels", "quick": (1000,), "thorough": (15000,)},
         ],
         "oracles": [
-            {"bin": "oracle_c13", "quick": ("{seed}", "750"), "thorough": ("{seed}", "5000")},
+            {"bin": "oracle_c13", "min_stats": {"systems": 13.5, "jacobian_entries_checked": 74.3, "aliased_cases": 4.1}, "quick": ("{seed}", "750"), "thorough": ("{seed}", "5000")},
         ],
         "partial": [
                     "completeness over the 23 kinds and their rows is by enumeration (one deriv_* theorem per kind and row, listed in DESIGN 11.2), not a single theorem quantified over kinds; DerivRow is the derivative along coordinate lines (what 'sensitivity with respect to each variable' means), not a Frechet derivative of the assembled map",
